@@ -43,7 +43,13 @@ def canon_row(o):
 
 def selections(blocks):
     """all admissible origin selections (as frozensets); blocks = [{orgs:[..], pick:n}]"""
-    per_block = [list(itertools.combinations(sorted(b["orgs"]), b["pick"])) for b in blocks]
+    per_block = []
+    for b in blocks:
+        lo = b.get("pmin", b["pick"])
+        opts = []
+        for k in range(lo, b["pick"] + 1):
+            opts += list(itertools.combinations(sorted(b["orgs"]), k))
+        per_block.append(opts)
     for combo in itertools.product(*per_block):
         yield frozenset(itertools.chain.from_iterable(combo))
 
